@@ -83,7 +83,10 @@ def main():
     kind = spec["kind"]
     cls = solver_class(kind)
     solver = None
+    created = []
     for op in spec["ops"]:
+        if solver is not None and solver not in created:
+            created.append(solver)
         name = op["op"]
         if name == "new":
             problem = make_problem(spec["problem"])
@@ -94,7 +97,9 @@ def main():
                 cfg = cls.Config(problem=other.config, **spec["solver_kw"])
                 solver = cls(problem=problem, config=cfg)
             else:
-                solver = cls(problem, **spec["solver_kw"])
+                kw = dict(spec["solver_kw"])
+                kw.update(op.get("kw") or {})
+                solver = cls(problem, **kw)
             _verif.emit("x_new", solver=solver, config=config_text(solver),
                         ckpt_enabled=bool(solver.is_checkpointing_enabled))
         elif name == "restore":
@@ -125,6 +130,8 @@ def main():
         elif name == "load":
             problem = make_problem(spec["problem"])
             solver = cls(problem, **spec["solver_kw"])
+            _verif.emit("x_new", solver=solver, config=config_text(solver),
+                        ckpt_enabled=bool(solver.is_checkpointing_enabled))
             try:
                 solver.load_checkpoint(op["dir"], step=op.get("step"))
                 _verif.emit("x_restore_ok", solver=solver, config="", req=op.get("step"),
@@ -150,8 +157,13 @@ def main():
             from mdpax.solvers import ValueIteration as _VI
             _VI(Forest(S=3), verbose=op.get("verbose", 3), gamma=0.5)
         elif name == "wait":
-            if solver is not None and getattr(solver, "checkpoint_manager", None) is not None:
-                solver.checkpoint_manager.wait_until_finished()
+            # every solver created in this process may still have a write in flight
+            for sv in created + ([solver] if solver is not None and solver not in created else []):
+                if getattr(sv, "checkpoint_manager", None) is not None:
+                    try:
+                        sv.checkpoint_manager.wait_until_finished()
+                    except Exception as ex:
+                        _verif.emit("x_solve_failed", exc=type(ex).__name__, msg="wait_until_finished: " + str(ex)[:200])
             _verif.emit("x_waited")
         elif name == "list":
             _verif.emit("x_listing", dir=op["dir"], **listing(op["dir"]))
